@@ -41,14 +41,14 @@ coq_schema / coq_ops / coq_results / coq_dumps      Coq literals for PonyV.Model
 import json
 
 ERRKINDS = ['Constraint', 'CacheIndex', 'Value', 'Type', 'TxnIntegrity', 'Integrity', 'Cyclic', 'ObjectNotFound', 'Multiple',
-            'Deleted', 'SessionOver', 'Unrepeatable', 'Optimistic', 'BadHandle', 'BadAttr', 'KeyError', 'Other']
+            'Deleted', 'SessionOver', 'Unrepeatable', 'Optimistic', 'BadHandle', 'BadAttr', 'KeyError', 'Assertion', 'Other']
 
 EXC2KIND = {
     'ConstraintError': 'Constraint', 'CacheIndexError': 'CacheIndex', 'ValueError': 'Value', 'TypeError': 'Type',
     'TransactionIntegrityError': 'TxnIntegrity', 'IntegrityError': 'Integrity', 'UnresolvableCyclicDependency': 'Cyclic',
     'ObjectNotFound': 'ObjectNotFound', 'MultipleObjectsFoundError': 'Multiple', 'OperationWithDeletedObjectError': 'Deleted',
     'DatabaseSessionIsOver': 'SessionOver', 'UnrepeatableReadError': 'Unrepeatable', 'OptimisticCheckError': 'Optimistic',
-    'KeyError': 'KeyError',
+    'KeyError': 'KeyError', 'AssertionError': 'Assertion',
 }
 
 STRS = ['', 'x', 'y', 'z']
@@ -106,13 +106,16 @@ class OpGen(object):
         self.ops_since_commit = 0
 
     # --- feedback
-    def observe(self, op, res, new_ents):
-        """new_ents: entity index of every handle that the op added to the table (in order)."""
+    def observe(self, op, res, new_ents, dead=None):
+        """new_ents: entity index of every handle that the op added to the table (in order);
+        dead: optional liveness hint for the whole table (True = deleted / cancelled), used only to steer generation."""
         k = op[0]
         cleared = (k in ('rollback', 'newsession')) or (k == 'commit' and res[0] == 'err')
         if cleared: self.h = []
         for e in new_ents: self.h.append(dict(ent=e, dead=False))
         if k == 'del' and res[0] == 'ok' and op[1] < len(self.h): self.h[op[1]]['dead'] = True
+        if dead is not None and len(dead) == len(self.h):
+            for x, d in zip(self.h, dead): x['dead'] = bool(d)
 
     # --- helpers
     def ents(self): return self.schema['ents']
@@ -120,7 +123,7 @@ class OpGen(object):
     def live(self, ent=None): return [i for i, x in enumerate(self.h) if not x['dead'] and (ent is None or x['ent'] == ent)]
     def any_handle(self, ent=None, allow_dead=0.1):
         c = self.live(ent)
-        if self.rng.random() < allow_dead or not c:
+        if self.rng.random() < allow_dead:
             c2 = [i for i, x in enumerate(self.h) if ent is None or x['ent'] == ent]
             if c2: return self.rng.choice(c2)
         return self.rng.choice(c) if c else None
@@ -128,6 +131,8 @@ class OpGen(object):
     def arg_for(self, e, j, bad=False):
         a = self.ents()[e]['attrs'][j]; r = self.rng
         if bad:
+            if a['k'] in ('ref', 'set'):          # ints / strings for a relationship are outside the modelled domain
+                return r.choice([None, {'h': self.any_handle() or 0}])
             return r.choice([None, 'x' if a['k'] == 'int' else 3, '', {'h': self.any_handle() or 0}])
         if a['k'] == 'int':
             return None if (not a['req'] and r.random() < 0.2) else r.choice(INTS)
@@ -135,7 +140,7 @@ class OpGen(object):
             return r.choice(STRS[1:] if a['req'] else STRS)
         if a['k'] == 'ref':
             if not a['req'] and r.random() < 0.2: return None
-            h = self.any_handle(a['tgt'], allow_dead=0.05)
+            h = self.any_handle(a['tgt'], allow_dead=0.02)
             return {'h': h} if h is not None else None
         if a['k'] == 'set':
             c = self.live(a['tgt'])
@@ -190,7 +195,7 @@ class OpGen(object):
         if k == 'selectall': return ['selectall', r.randrange(ne)]
         if k in ('getby', 'select'):
             e = r.randrange(ne); c = self.attrs_of(e, ('int', 'str', 'ref'))
-            if bad and r.random() < 0.3: c = self.attrs_of(e, ('int', 'str', 'ref', 'set'))
+            if bad and k == 'getby' and r.random() < 0.3: c = self.attrs_of(e, ('int', 'str', 'ref', 'set'))
             if not c: return None
             j = r.choice(c)
             if self.ents()[e]['attrs'][j]['k'] == 'set': return [k, e, j, r.choice([None, {'hs': []}])]
